@@ -36,7 +36,7 @@ PLAN = {
     "C16-E": ["C16"], "C16-F": ["C16", "C04"], "C11-E": ["C11"], "C11-F": ["C11"], "C18-E": ["C18"], "C18-F": ["C18", "C16"],
     "C17-E": ["C17"], "C17-F": ["C17"], "C10-E": ["C10"], "C10-F": ["C10", "C14"],
     # sixth batch
-    "C01-E": ["C01", "C16"], "C01-F": ["C01"], "C03-E": ["C03"], "C03-F": ["C03"], "C14-E": ["C14"], "C14-F": ["C14"],
+    "C01-E": ["C01", "C04"], "C01-F": ["C01"], "C03-E": ["C03"], "C03-F": ["C03"], "C14-E": ["C14"], "C14-F": ["C14"],
     "C12-E": ["C12"], "C12-F": ["C12", "C01"], "C08-E": ["C08"], "C08-F": ["C08"], "C19-E": ["C19"], "C19-F": ["C19"],
     "C06-G": ["C06"], "C06-H": ["C06"], "C15-G": ["C15"], "C15-H": ["C15"],
 }
